@@ -26,7 +26,7 @@ import (
 var c18Types = []reflect.Type{gen.TString, gen.TString, gen.TString, gen.TBool, gen.TInt, gen.TInt8, gen.TInt16, gen.TInt32, gen.TInt64, gen.TUint, gen.TUint8, gen.TUint16, gen.TUint32, gen.TUint64, gen.TFloat32, gen.TFloat64, gen.TGInt, gen.TGStr, gen.TGUint, gen.TGBool}
 
 // strings that matter for URL transport
-var c18UrlStrings = []string{"hello world", "a b c", " lead", "trail ", "a  b", "x+y z", "a&b", "a=b", "p&q=r", "a+b", "100%", "a b", "?x", "#frag", "测试&调", "a%26b", "%41", "a;b", "1+1=2", "x&", "=", "&", "a/b?c", "é=ü"}
+var c18UrlStrings = []string{"hello world", "a b c", " lead", "trail ", "a  b", "x+y z", "a&b", "a=b", "p&q=r", "a+b", "100%", "a b", "?x", "#frag", "测试&调", "a%26b", "%41", "a;b", "1+1=2", "x&", "=", "&", "a/b?c", "é=ü", "a;b;c", ";x", "x;", "测;试", "a;;b"}
 
 func c18Markers(o drive.Out) (set []string, other []string) {
 	if o.Nil || o.Panic != "" {
